@@ -1,130 +1,236 @@
-// probe (temporary): life cycle of an oracle on the real app
+// c13: correspondence + monitor for the oracle registry (bond / add-delegate / re-delegate /
+// edit-bridger / withdraw-reward / governance list / slashing in the real end blocker / unbond).
+//
+// Every history runs on the REAL application (lib.NewChain: full fx-core app, real staking, bank,
+// distribution, two crosschain modules side by side), all messages through the real MsgServer.
+// After every operation the projection (records, both reverse indexes from raw store dumps,
+// proposal list, last total power, real delegations / unbonding entries / balances of the delegate
+// addresses and oracle accounts, oracle sets + confirms, slash cursors) is written next to the
+// operation into Cases_C13.v, where coqc replays the history in model.M_OracleReg and compares.
+// The monitor (monitor.go) evaluates the property text on the same real observables.
 package main
 
 import (
+	"encoding/json"
 	"fmt"
-
-	sdk "github.com/cosmos/cosmos-sdk/types"
-
-	fxtypes "github.com/functionx/fx-core/v8/types"
-	crosschaintypes "github.com/functionx/fx-core/v8/x/crosschain/types"
+	"math/big"
+	"os"
+	"strings"
 
 	"fxverif/lib"
 )
 
-func main() {
-	c := lib.NewChain(1, 3, nil)
-	fmt.Println("ctx height", c.Ctx.BlockHeight(), c.Ctx.BlockTime())
-	must(c.NextBlock())
-	fmt.Println("ctx height", c.Ctx.BlockHeight(), c.Ctx.BlockTime(), c.Height)
-	x := c.X("eth")
-	var os []*lib.Oracle
-	for i := 0; i < 8; i++ {
-		o := x.NewOracle(i)
-		os = append(os, o)
-		c.Mint(o.Oracle.Acc(), lib.FX(300000))
-	}
-	must(x.ProposeOracles(os))
-	for i, o := range os {
-		must(x.Bond(o, 10000, i))
-	}
-	sp, _ := c.App.StakingKeeper.GetParams(c.Ctx)
-	fmt.Println("unbonding time", sp.UnbondingTime, "max entries", sp.MaxEntries)
-	must(c.NextBlock())
-	show := func(tag string, o *lib.Oracle) {
-		ctx := c.Ctx
-		rec, found := x.Keeper.GetOracle(ctx, o.Oracle.Acc())
-		tmp := crosschaintypes.Oracle{OracleAddress: o.Oracle.Acc().String()}
-		da := tmp.GetDelegateAddress("eth")
-		fmt.Printf("%s: found=%v online=%v amt=%s slash=%d start=%d | bal_o=%s bal_d=%s", tag, found, rec.Online, rec.DelegateAmount, rec.SlashTimes, rec.StartHeight,
-			c.App.BankKeeper.GetBalance(ctx, o.Oracle.Acc(), fxtypes.DefaultDenom).Amount, c.App.BankKeeper.GetBalance(ctx, da, fxtypes.DefaultDenom).Amount)
-		dels, _ := c.App.StakingKeeper.GetAllDelegatorDelegations(ctx, da)
-		for _, d := range dels {
-			fmt.Printf(" del[%s]=%s", d.ValidatorAddress[len(d.ValidatorAddress)-4:], d.Shares)
-		}
-		ubds, _ := c.App.StakingKeeper.GetAllUnbondingDelegations(ctx, da)
-		for _, u := range ubds {
-			for _, e := range u.Entries {
-				fmt.Printf(" ubd[%s]=%s@%s", u.ValidatorAddress[len(u.ValidatorAddress)-4:], e.Balance, e.CompletionTime.Format("01-02T15:04"))
-			}
-		}
-		fmt.Println(" power", x.Keeper.GetLastTotalPower(ctx))
-	}
-	show("bonded", os[0])
-	// governance removes oracle 0
-	err := c.Try(func(ctx sdk.Context) error {
-		_, err := x.Msg().UpdateChainOracles(ctx, &crosschaintypes.MsgUpdateChainOracles{ChainName: "eth", Authority: lib.GovAuthority(), Oracles: addrs(os[1:])})
-		return err
-	})
-	fmt.Println("gov remove:", err)
-	show("removed", os[0])
-	unbond := func(o *lib.Oracle) error {
-		return c.Try(func(ctx sdk.Context) error {
-			_, err := x.Msg().UnbondedOracle(ctx, &crosschaintypes.MsgUnbondedOracle{ChainName: "eth", OracleAddress: o.Oracle.Acc().String()})
-			return err
-		})
-	}
-	must(c.NextBlock())
-	// scenario A: wait for maturity then unbond (oracle 0)
-	must(c.NextBlockAfter(sp.UnbondingTime + lib.BlockStep))
-	must(c.NextBlock())
-	show("matured", os[0])
-	fmt.Println("unbond after maturity:", unbond(os[0]))
-	show("after-unbond-attempt", os[0])
+var secondModules = []string{"bsc", "tron", "polygon", "avalanche"}
 
-	// scenario B: oracle 1 removed, unbond BEFORE maturity
-	err = c.Try(func(ctx sdk.Context) error {
-		_, err := x.Msg().UpdateChainOracles(ctx, &crosschaintypes.MsgUpdateChainOracles{ChainName: "eth", Authority: lib.GovAuthority(), Oracles: addrs(os[2:])})
-		return err
-	})
-	fmt.Println("gov remove 1:", err)
-	must(c.NextBlock())
-	show("B removed", os[1])
-	fmt.Println("unbond before maturity:", unbond(os[1]))
-	show("B unbonded", os[1])
-	fmt.Println("second unbond:", unbond(os[1]))
-	must(c.NextBlockAfter(sp.UnbondingTime + lib.BlockStep))
-	must(c.NextBlock())
-	show("B matured", os[1])
-
-	// scenario C: oracle 2 removed, re-added, add-delegate 1 afx
-	err = c.Try(func(ctx sdk.Context) error {
-		_, err := x.Msg().UpdateChainOracles(ctx, &crosschaintypes.MsgUpdateChainOracles{ChainName: "eth", Authority: lib.GovAuthority(), Oracles: addrs(os[3:])})
-		return err
-	})
-	fmt.Println("gov remove 2:", err)
-	show("C removed", os[2])
-	err = c.Try(func(ctx sdk.Context) error {
-		_, err := x.Msg().UpdateChainOracles(ctx, &crosschaintypes.MsgUpdateChainOracles{ChainName: "eth", Authority: lib.GovAuthority(), Oracles: addrs(os[2:])})
-		return err
-	})
-	fmt.Println("gov re-add 2:", err)
-	err = c.Try(func(ctx sdk.Context) error {
-		_, err := x.Msg().AddDelegate(ctx, &crosschaintypes.MsgAddDelegate{ChainName: "eth", OracleAddress: os[2].Oracle.Acc().String(), Amount: sdk.NewInt64Coin(fxtypes.DefaultDenom, 1)})
-		return err
-	})
-	fmt.Println("add-delegate 1afx:", err)
-	show("C re-online", os[2])
-	must(c.NextBlockAfter(sp.UnbondingTime + lib.BlockStep))
-	must(c.NextBlock())
-	err = c.Try(func(ctx sdk.Context) error {
-		_, err := x.Msg().WithdrawReward(ctx, &crosschaintypes.MsgWithdrawReward{ChainName: "eth", OracleAddress: os[2].Oracle.Acc().String()})
-		return err
-	})
-	fmt.Println("withdraw:", err)
-	show("C withdrawn", os[2])
+type runner struct {
+	w     *world
+	hist  History
+	rep   *lib.Report
+	pre   []*View
+	fails map[string]bool
 }
 
-func addrs(os []*lib.Oracle) []string {
-	var r []string
-	for _, o := range os {
-		r = append(r, o.Oracle.Acc().String())
+func newRunner(seed int64, modules []string, rep *lib.Report) *runner {
+	r := &runner{w: newWorld(seed, modules), rep: rep, fails: map[string]bool{}}
+	r.hist = History{Seed: seed, Modules: modules}
+	for _, m := range r.w.mods {
+		v := m.view()
+		r.pre = append(r.pre, v)
+		m.view0 = v.coq()
+		m.prev = m.view0
+		m.initArg = fmt.Sprintf("%d %d %d %s %d %s %d", v.Height, int64(r.w.c.Ctx.BlockTime().Sub(lib.GenesisTime).Seconds()),
+			r.w.ubtime, v.Threshold, v.Multiple, v.Fraction, v.Window)
 	}
 	return r
 }
 
-func must(err error) {
-	if err != nil {
-		panic(err)
+// do executes one operation, records the model step(s) and runs the monitor.
+func (r *runner) do(op Op) (class int) {
+	r.hist.Ops = append(r.hist.Ops, op)
+	res := r.w.apply(op)
+	for _, a := range res {
+		m := r.w.mods[a.mod]
+		post := m.view()
+		vs := post.coq()
+		ov := "None"
+		if vs != m.prev {
+			ov = "(Some " + vs + ")"
+			m.prev = vs
+		}
+		m.steps = append(m.steps, fmt.Sprintf("(%s, %d, %s)", a.coqOp, a.class, ov))
+		m.nsteps++
+		r.rep.Count("op=" + op.K + fmt.Sprintf("/class=%d", a.class))
+		var vio []violation
+		vio = append(vio, checkStep(op, a.class, r.pre[a.mod], post)...)
+		vio = append(vio, checkState(post)...)
+		for _, v := range vio {
+			key := fmt.Sprintf("%s/%d/%s", v.sig, a.mod, strings.SplitN(v.what, ":", 2)[0])
+			if r.fails[key] {
+				continue
+			}
+			r.fails[key] = true
+			h := r.hist
+			h.Ops = append([]Op{}, r.hist.Ops...)
+			r.rep.Fail(lib.Failure{Kind: "monitor", What: fmt.Sprintf("[%s] %s", m.name, v.what), Sig: v.sig, Replay: h})
+		}
+		r.pre[a.mod] = post
+		class = a.class
 	}
+	return class
+}
+
+func (r *runner) coqCases() []string {
+	var out []string
+	accs := []string{}
+	orcs := []string{}
+	exts := []string{}
+	for a := 0; a < nOracles; a++ {
+		accs = append(accs, fmt.Sprint(a))
+		orcs = append(orcs, fmt.Sprint(a))
+	}
+	for b := 0; b < nBridgers; b++ {
+		accs = append(accs, fmt.Sprint(100+b))
+	}
+	for e := 0; e < nExts; e++ {
+		exts = append(exts, fmt.Sprint(200+e))
+	}
+	for _, m := range r.w.mods {
+		// mk_orc_case accs orcs exts vals h t ub thr mul frac win view0 steps
+		out = append(out, fmt.Sprintf("mk_orc_case %s %s %s [0; 1; 2] %s\n    %s\n    [%s]", lib.List(accs), lib.List(orcs), lib.List(exts),
+			m.initArg, m.view0, strings.Join(m.steps, ";\n     ")))
+	}
+	return out
+}
+
+func fx(n int64) string { return new(big.Int).Mul(big.NewInt(n), big.NewInt(1e18)).String() }
+
+func main() {
+	seed := lib.Seed()
+	rep := lib.NewReport("C13")
+	rep.Rule = "histories of fund/bond/add-delegate/re-delegate/edit-bridger/withdraw-reward/governance-list/params/confirm/batch/unbond and real blocks " +
+		"(signed window 2..4, block time jumps past the unbonding period) on two crosschain modules of one real chain; amounts at threshold, threshold*multiple +-1, " +
+		"penalty +-1; non-trivial = history in which an oracle was slashed by the real end blocker or removed by governance; distinct by operation list"
+	mode := os.Getenv("VERIF_MODE")
+	if mode == "replay" {
+		replay(rep)
+		return
+	}
+	n := 14
+	if lib.Tier() == "thorough" {
+		n = 120
+	}
+	if mode == "search" {
+		n = 60
+	}
+	if v := lib.EnvInt("VERIF_N", 0); v > 0 {
+		n = int(v)
+	}
+	var items []string
+	// the three scripted life cycles (the witnesses of the *_refuted theorems, replayed on the real app)
+	for i, sc := range scripted() {
+		r := newRunner(1000+int64(i), []string{"eth", "bsc"}, rep)
+		for _, op := range sc {
+			r.do(op)
+		}
+		rep.Case(fmt.Sprintf("scripted-%d", i), true)
+		items = append(items, r.coqCases()...)
+	}
+	rng := lib.NewRand(seed)
+	for i := 0; i < n; i++ {
+		hseed := rng.Int63()
+		mods := []string{"eth", secondModules[i%len(secondModules)]}
+		r := newRunner(hseed, mods, rep)
+		g := newGen(lib.NewRand(hseed), r, i)
+		g.run()
+		key, _ := json.Marshal(r.hist.Ops)
+		rep.Case(string(key), g.sawSlash || g.sawRemoval)
+		rep.Count(fmt.Sprintf("flavour=%s", g.flavour()))
+		if g.sawSlash {
+			rep.Count("history-with-real-slash")
+		}
+		if g.sawMature {
+			rep.Count("history-with-matured-unbonding")
+		}
+		if i < 2 {
+			rep.Sample(r.hist)
+		}
+		items = append(items, r.coqCases()...)
+	}
+	lib.WriteCases("Cases_C13.v", []string{"model.M_OracleReg", "model.M_OracleRegCorr"}, "orc_case", items, "orc_mismatch")
+	rep.Write()
+}
+
+func replay(rep *lib.Report) {
+	raw, err := os.ReadFile(os.Getenv("VERIF_REPLAY"))
+	lib.Must(err)
+	var f struct {
+		Replay History `json:"replay"`
+	}
+	lib.Must(json.Unmarshal(raw, &f))
+	r := newRunner(f.Replay.Seed, f.Replay.Modules, rep)
+	for i, op := range f.Replay.Ops {
+		cl := r.do(op)
+		b, _ := json.Marshal(op)
+		fmt.Printf("%3d %s -> class %d\n", i+1, b, cl)
+	}
+	for _, fl := range rep.Failures {
+		fmt.Println("MONITOR FAILURE:", fl.Sig, "-", fl.What)
+	}
+	lib.WriteCases("Cases_C13.v", []string{"model.M_OracleReg", "model.M_OracleRegCorr"}, "orc_case", r.coqCases(), "orc_mismatch")
+	rep.Write()
+	if len(rep.Failures) > 0 {
+		os.Exit(1)
+	}
+}
+
+// scripted: deterministic life cycles (module 0 = eth). 7 oracles bonded with 10000 FX each.
+func scripted() [][]Op {
+	setup := func() []Op {
+		var ops []Op
+		for a := 0; a < nOracles; a++ {
+			ops = append(ops, Op{K: "fund", M: 0, A: a, Amt: fx(300000)})
+		}
+		ops = append(ops, Op{K: "params", M: 0, P: []string{fx(10000), "10", "800000000000000000", "2"}})
+		ops = append(ops, Op{K: "gov", M: 0, L: []int{0, 1, 2, 3, 4, 5, 6}})
+		for a := 0; a < nOracles; a++ {
+			ops = append(ops, Op{K: "bond", M: 0, A: a, B: 100 + a, E: 200 + a, V: a % 3, Amt: fx(10000)})
+		}
+		ops = append(ops, Op{K: "block"})
+		return ops
+	}
+	confirmAll := func(n int64, except int) []Op {
+		var ops []Op
+		for a := 0; a < nOracles; a++ {
+			if a != except {
+				ops = append(ops, Op{K: "confirm", M: 0, Obj: "set", N: n, B: 100 + a, E: 200 + a})
+			}
+		}
+		return ops
+	}
+	const mature = 1814400 + 10
+	// A: removed by governance, unbonding matures, withdrawal refused for ever (C13-1a)
+	a := setup()
+	a = append(a, confirmAll(1, -1)...)
+	a = append(a, Op{K: "gov", M: 0, L: []int{1, 2, 3, 4, 5, 6}}, Op{K: "block"})
+	a = append(a, confirmAll(2, 0)...)
+	a = append(a, Op{K: "unbond", M: 0, A: 1}) // still approved: correctly refused
+	a = append(a, Op{K: "block", Dt: mature}, Op{K: "block"}, Op{K: "unbond", M: 0, A: 0}, Op{K: "block"}, Op{K: "unbond", M: 0, A: 0})
+	// B: removed by governance, withdraws BEFORE maturity: accepted, pays only the rewards, records deleted,
+	//    the stake later matures into the keyless delegate address (C13-1b); second withdrawal refused
+	b := setup()
+	b = append(b, confirmAll(1, -1)...)
+	b = append(b, Op{K: "gov", M: 0, L: []int{1, 2, 3, 4, 5, 6}}, Op{K: "block"})
+	b = append(b, confirmAll(2, 0)...)
+	b = append(b, Op{K: "unbond", M: 0, A: 0}, Op{K: "unbond", M: 0, A: 0}, Op{K: "block", Dt: mature}, Op{K: "block"})
+	// C: removed, re-approved, add-delegate of one base unit: online again with the full recorded stake
+	//    and a delegation of one base unit; the old stake comes back through withdraw-reward (C13-2).
+	//    Oracle 3 does not sign oracle set 1 and is slashed by the real end blocker, pays the penalty.
+	c := setup()
+	c = append(c, confirmAll(1, 3)...)
+	c = append(c, Op{K: "block"}, Op{K: "block"}, Op{K: "block"})
+	c = append(c, confirmAll(2, 3)...)
+	c = append(c, Op{K: "add", M: 0, A: 3, Amt: fx(8000)}, Op{K: "block"})
+	c = append(c, Op{K: "gov", M: 0, L: []int{1, 2, 3, 4, 5, 6}}, Op{K: "gov", M: 0, L: []int{0, 1, 2, 3, 4, 5, 6}},
+		Op{K: "add", M: 0, A: 0, Amt: "1"}, Op{K: "block", Dt: mature}, Op{K: "block"}, Op{K: "withdraw", M: 0, A: 0})
+	return [][]Op{a, b, c}
 }
